@@ -496,6 +496,15 @@ func parentMain(args []string) int {
 						// bounded progress: confirm alone before calling it a violation; a case which, alone, kills
 						// its process instead of hanging (a runaway recursion reaching the stack limit) is a death
 						alone := confirmHang(p, bin, *tier, seed, res.crashedAt, work)
+						if !alone.hang && alone.crashedAt < 0 && res.crashedAt > c.from {
+							// not reproduced alone: the hang may depend on what the process did before (a bounded cache
+							// filling up, a lock left held): run the same sequence of cases again, up to this one
+							again := runChunk(p, bin, false, *tier, seed, &chunk{from: c.from, to: res.crashedAt + 1, skip: c.skip}, work)
+							if again.crashedAt == res.crashedAt && (again.hang || again.crashedAt >= 0) {
+								alone = again
+								rec.What += " (not alone, but again after the same sequence of cases in a fresh process)"
+							}
+						}
 						switch {
 						case alone.hang:
 							// did not return alone either: a violation of bounded progress, unless a recorded finding
